@@ -176,7 +176,12 @@ func runC17(c *Ctx) {
 			}
 			n++
 			c.requireGuard("C17.compact-keeps-embedded", k+".compact → hash reference", e.pos(), e.Guards, wDiffer("node owns a hash", `^\$r\.[a-zA-Z.]*hashValue$`, `^nil$`))
-			c.requireGuard("C17.compact-keeps-embedded", k+".compact → hash reference", e.pos(), e.Guards, wGE("node is flushed", 0, t(1, `^\$r\.[a-zA-Z.]*state$`)))
+			flushed, okFl := c.constVal(pkg, "stateFlushed")
+			if !okFl {
+				c.undecided("C17.compact-keeps-embedded", "stateFlushed", token.NoPos, "constant not found")
+				continue
+			}
+			c.requireGuard("C17.compact-keeps-embedded", k+".compact → hash reference", e.pos(), e.Guards, wGE("node is flushed (state ≥ stateFlushed)", -flushed, t(1, `^\$r\.[a-zA-Z.]*state$`)))
 		}
 		if n == 0 {
 			c.undecided("C17.compact-keeps-embedded", k+".compact", f.Pos(), "no exit replacing the node by a hash reference")
@@ -467,6 +472,186 @@ func runC17(c *Ctx) {
 			c.undecided("C17.leaf-delete-exact", "leaf.delete", f.Pos(), "no removing exit")
 		}
 	}
+	runC17Second(c)
+}
+
+// runC17Second holds the rules added for the second list of independently produced mutants.
+func runC17Second(c *Ctx) {
+	const pkg = "common/trie/ompt"
+	// ---- a key prefix is prepended whole: the node's own keys are copied behind all of it
+	for _, k := range []string{"extension", "leaf"} {
+		f := c.fn(pkg, k, "getKeyPrepended")
+		if f == nil {
+			continue
+		}
+		n := 0
+		for _, b := range f.Blocks {
+			for _, in := range b.Instrs {
+				call, ok := in.(*ssa.Call)
+				if !ok {
+					continue
+				}
+				bi, isB := call.Call.Value.(*ssa.Builtin)
+				if !isB || len(call.Call.Args) != 2 || !strings.HasSuffix(render(call.Call.Args[1]), "$r.keys") {
+					continue
+				}
+				switch bi.Name() {
+				case "copy":
+					n++
+					sl, isSl := unwrap(call.Call.Args[0]).(*ssa.Slice)
+					c.check(isSl && sl.Low != nil && render(sl.Low) == "len($0)", "C17.prepend-whole", k+".getKeyPrepended places its own keys behind the whole prefix", call.Pos(), "copy(dst[len(prefix):], keys)", "own keys are copied to "+render(call.Call.Args[0])+": a prefix of another length overlaps or leaves a gap, the node answers for a different key")
+				case "append":
+					n++
+					c.check(strings.Contains(render(call.Call.Args[0]), "$0"), "C17.prepend-whole", k+".getKeyPrepended appends its own keys to the prefix", call.Pos(), "append(prefix…, keys…)", "own keys are appended to "+render(call.Call.Args[0]))
+				}
+			}
+		}
+		if n == 0 {
+			c.undecided("C17.prepend-whole", k+".getKeyPrepended", f.Pos(), "no copy/append of the node's own keys")
+		}
+	}
+	// ---- Delete installs whatever root the recursive delete returns (nil when the last key goes)
+	if f := c.mustFn(pkg, "mpt", "Delete"); f != nil {
+		dels := c.calls(f, byMethod("delete"))
+		var sts []fieldStore
+		for _, st := range fieldStores([]*ssa.Function{f}, "mpt", "root") {
+			if render(st.Addr.X) == "$r" {
+				sts = append(sts, st)
+			}
+		}
+		if len(dels) != 1 || len(sts) == 0 {
+			c.undecided("C17.delete-installs-root", "mpt.Delete", f.Pos(), fmt.Sprintf("%d delete calls, %d root stores", len(dels), len(sts)))
+		} else {
+			dr := regexp.QuoteMeta(render(dels[0].Instr.Value()))
+			_, skip := pathAvoidingEdges(f, dels[0].Instr, isReturn, func(in ssa.Instruction) bool {
+				for _, st := range sts {
+					if in == ssa.Instruction(st.Store) {
+						return true
+					}
+				}
+				return false
+			}, wFalse("nothing changed", "^"+dr+"#1$"), wDiffer("delete failed", "^"+dr+"#3$", "^nil$"))
+			c.check(!skip, "C17.delete-installs-root", "mpt.Delete replaces the root whenever the recursive delete changed something", sts[0].Store.Pos(), "no path from delete() to return round m.root = root except !dirty / err", "a changed trie can leave Delete without the new root installed (for instance when the new root is nil after the last key is deleted): the removed entry stays readable")
+			for _, st := range sts {
+				c.check(render(st.Store.Val) == render(dels[0].Instr.Value())+"#0", "C17.delete-installs-root", "the installed root is the one delete returned", st.Store.Pos(), "root = delete()#0", "installs "+render(st.Store.Val))
+			}
+		}
+	}
+	// ---- branch.traverse schedules all sixteen children
+	if bt := c.mustFn(pkg, "branch", "traverse"); bt != nil {
+		n := 0
+		for _, b := range bt.Blocks {
+			for _, in := range b.Instrs {
+				phi, ok := in.(*ssa.Phi)
+				if !ok || !isIntType(phi.Type()) || phi.Comment != "i" {
+					continue
+				}
+				iff, isIf := b.Instrs[len(b.Instrs)-1].(*ssa.If)
+				if !isIf {
+					continue
+				}
+				start := int64(-1)
+				for i, e := range phi.Edges {
+					if !b.Dominates(b.Preds[i]) {
+						if k, ok := constInt(e); ok {
+							start = k
+						}
+					}
+				}
+				bodyPol := true
+				if lb := loopBody(b); lb != nil && !lb[b.Succs[0]] {
+					bodyPol = false
+				}
+				p := predOfVal(iff.Cond, bodyPol)
+				pr := render(phi)
+				n++
+				okB := false
+				switch {
+				case start == 15: // downwards: the body runs while i >= 0
+					okB = p.Kind == "ge" && len(p.L.T) == 1 && p.L.T[pr] == 1 && p.L.K == 0
+				case start == 0: // upwards: the body runs while i <= 15 (or i < len(children))
+					okB = p.Kind == "ge" && p.L.T[pr] == -1 && ((len(p.L.T) == 1 && p.L.K == 15) || (len(p.L.T) == 2 && p.L.K == -1))
+				}
+				c.check(okB, "C17.traverse-all-children", "branch.traverse's child loop covers nibbles 0…15", iff.Pos(), "start "+fmt.Sprint(start)+", body while "+p.String(), "the child loop starts at "+fmt.Sprint(start)+" and runs while "+p.String()+": a child slot is never scheduled, its keys are missing from iteration")
+			}
+		}
+		if n == 0 {
+			if rng := rangesOverChildren(bt); !rng {
+				c.undecided("C17.traverse-all-children", "branch.traverse", bt.Pos(), "child loop not found")
+			}
+		}
+	}
+	// ---- branch.delete: the single surviving child is realized before its kind decides the collapse,
+	// and a branch left with only its value becomes a leaf holding that value
+	if bd := c.mustFn(pkg, "branch", "delete"); bd != nil {
+		n := 0
+		for _, b := range bd.Blocks {
+			for _, in := range b.Instrs {
+				ta, ok := in.(*ssa.TypeAssert)
+				if !ok {
+					continue
+				}
+				switch namedOf(ta.AssertedType) {
+				case "extension", "leaf", "branch":
+				default:
+					continue
+				}
+				n++
+				x := unwrap(ta.X)
+				okR := false
+				if ex, isEx := x.(*ssa.Extract); isEx && ex.Index == 0 {
+					if call, isC := ex.Tuple.(*ssa.Call); isC {
+						if cal := call.Call.StaticCallee(); (cal != nil && cal.Name() == "realize") || (call.Call.IsInvoke() && call.Call.Method.Name() == "realize") {
+							okR = true
+						}
+					}
+				}
+				c.check(okR, "C17.collapse-realized", "branch.delete inspects the kind of a realized child", ta.Pos(), "x, _ := child.realize(m); switch x.(type)", "the collapse switches on "+render(ta.X)+", which may still be a hash reference: a branch with one stored child is not collapsed and the root hash differs from the canonical trie's")
+			}
+		}
+		if n == 0 {
+			c.undecided("C17.collapse-realized", "branch.delete", bd.Pos(), "no type switch over the surviving child")
+		}
+		m := 0
+		for _, st := range fieldStores([]*ssa.Function{bd}, "leaf", "value") {
+			m++
+			c.check(strings.HasSuffix(render(st.Store.Val), ".value"), "C17.collapse-keeps-value", "a branch reduced to its value becomes a leaf with that value", st.Store.Pos(), "leaf{value: br.value}", "the leaf holds "+render(st.Store.Val)+" instead of the branch's own value")
+		}
+		if m == 0 {
+			c.undecided("C17.collapse-keeps-value", "branch.delete", bd.Pos(), "no leaf built from the branch value")
+		}
+	}
+	// ---- a hash reference links by its bare hash only where the caller forces hashes
+	if f := c.mustFn(pkg, "hash", "getLink"); f != nil {
+		bare, wrapped := 0, 0
+		for _, e := range exitAlts(f) {
+			r := render(e.Results[0])
+			switch {
+			case r == "$r.value":
+				bare++
+				c.requireGuard("C17.hash-link-form", "hash.getLink returns the bare hash", e.pos(), e.Guards, wTrue("caller forces hashes", `^\$0$`))
+			case strings.Contains(r, "rlpEncodeBytes($r.value)"):
+				wrapped++
+			default:
+				c.violate("C17.hash-link-form", "hash.getLink result", e.pos(), "returns "+r)
+			}
+		}
+		if wrapped == 0 {
+			c.violate("C17.hash-link-form", "hash.getLink wraps the hash as an RLP string inside a parent node", f.Pos(), "no exit returns rlpEncodeBytes(value): a parent serialises the 32 hash bytes as raw RLP, its own hash differs from every other implementation's")
+		} else {
+			c.ok("C17.hash-link-form", "hash.getLink wraps the hash as an RLP string inside a parent node", f.Pos(), fmt.Sprintf("%d wrapped, %d bare exits", wrapped, bare))
+		}
+	}
+}
+
+// rangesOverChildren reports whether the function ranges over the children array (every slot visited).
+func rangesOverChildren(f *ssa.Function) bool {
+	for _, b := range f.Blocks {
+		if _, bound, ok := indexLoop(b); ok && bound != nil && strings.Contains(render(bound), "children") {
+			return true
+		}
+	}
+	return false
 }
 
 func runC18(c *Ctx) {
